@@ -160,7 +160,7 @@ def crash_site(err):
         msg = err.split("runtime error:")[1].split("\n")[0].strip()
         kind = "ubsan " + re.sub(r"0x[0-9a-f]+", "ADDR", msg)[:60]
     frames = []
-    for m in re.finditer(r"#\d+ 0x[0-9a-f]+ in (.+?) (/repo/\S+?):(\d+)", err):
+    for m in re.finditer(r"#\d+ 0x[0-9a-f]+ in (.+?) (" + re.escape(vlib.REPO.rstrip("/")) + r"/\S+?):(\d+)", err):
         fn = m.group(1)
         fn = re.sub(r"<.*", "", fn)            # drop template arguments
         fn = fn.split("(")[0]
